@@ -17,6 +17,6 @@ RowsPrefix == Len(rows) <= Len(Expected) /\ \A j \in 1..Len(rows) : RowEq(rows[j
 RowsFinal == phase = "Done" => Len(rows) = Len(Expected)
 SemFinal == phase = "Done" => BagEq(Rows(Inst), rows)
 \* one line per completed behaviour, for replay against the real engine (binding A)
-Report == phase = "Done" => PrintT(<<"SCHED", Inst.id, ToJson(sched)>>)
+Report == IF IOEnv.REPORT = "1" /\ phase = "Done" THEN PrintT(<<"SCHED", Inst.id, ToJson(sched)>>) ELSE TRUE
 Done == phase = "Done"
 =============================================================================
